@@ -76,7 +76,7 @@ def run_property(pid, tier="quick", seed=0, only=None, verbose=False):
     if os.environ.get("PYVC_NO_BOUNDED"):
         bounded = []
     registry = {}
-    for c in getattr(mod, "REGISTRY", []) + getattr(mod, "CONTRACTS", []):
+    for c in getattr(mod, "REGISTRY", []):  # callees that are called by contract (modular), deliberately listed
         registry.setdefault(c.target, c)
     timeout_ms = int(os.environ.get("PYVC_TIMEOUT_MS", "20000" if tier == "quick" else "60000"))
 
@@ -236,6 +236,22 @@ def run_property(pid, tier="quick", seed=0, only=None, verbose=False):
     replay_dir = os.path.join(os.environ.get("PYVC_EVIDENCE_DIR") or VERIF, "replays", pid)
     os.makedirs(replay_dir, exist_ok=True)
 
+    witness_cache = {}
+
+    def witness_still_fails(kf):
+        """a known finding only suppresses while its recorded witness still fails on the real code"""
+        snippet = kf.get("witness_py")
+        if not snippet:
+            return True
+        if kf["match"] not in witness_cache:
+            env = dict(os.environ, PYTHONPATH=extract.REPO)
+            try:
+                out = subprocess.run([VENV_PY, "-c", snippet], capture_output=True, text=True, timeout=120, env=env)
+                witness_cache[kf["match"]] = "WITNESS-FAILS" in out.stdout
+            except Exception:
+                witness_cache[kf["match"]] = False
+        return witness_cache[kf["match"]]
+
     def is_known(key, text):
         for kf in known:
             if re.search(kf["match"], key) or re.search(kf["match"], text):
@@ -278,9 +294,10 @@ def run_property(pid, tier="quick", seed=0, only=None, verbose=False):
         with open(path, "w") as fh:
             json.dump(doc, fh, indent=1, default=str)
         found_input = bool(concrete) or bool(replayed and replayed.get("reproduced"))
-        if kf:
-            known_hits.append(kf)
-            lines.append(f"KNOWN-FINDING: property={pid} {kf['what']}")
+        if kf and witness_still_fails(kf):
+            if kf not in known_hits:
+                known_hits.append(kf)
+                lines.append(f"KNOWN-FINDING: property={pid} {kf['what']}")
         else:
             violations += 1
             rel = os.path.relpath(path, VERIF)
@@ -365,6 +382,9 @@ def run_property(pid, tier="quick", seed=0, only=None, verbose=False):
         print(f"NOTE undecided: {u.get('obligation') or u.get('contract')}: {short(u['reason'], 200)}")
         if verbose and u.get("trace"):
             print(u["trace"])
+    if verbose:
+        for r in refuted:
+            print(f"REFUTED {r['name']} :: {short(r['descr'], 160)} (line {r['line']}) model={short(r['model'], 600)}")
     for ln in lines:
         print(ln)
     if errors:
